@@ -624,6 +624,17 @@ def sb_VERBOSE(eng, path, p):
     return path.getf(p, "_Class__verbose")
 
 
+def sb_ISGLOBALWORD(eng, path, x):
+    """x is AnyWordChar / AnyButWordChar built with is_global=True"""
+    cl = eng.index.modules["pregex.core.classes"].classes
+    if not (isinstance(x, Obj) and hasattr(x.cls, "is_subclass_of")):
+        return False
+    for n in ("AnyWordChar", "AnyButWordChar"):
+        if x.cls.is_subclass_of(cl[n]):
+            return path.getf(x, f"_{n}__is_global")
+    return False
+
+
 def sb_ISANY(eng, path, x):
     a = eng.index.modules["pregex.core.classes"].classes["Any"]
     return isinstance(x, Obj) and hasattr(x.cls, "is_subclass_of") and x.cls.is_subclass_of(a)
@@ -821,7 +832,7 @@ def sb_TV(eng, path, text):
 def sb_RV(eng, path, lst):
     """view of a list / set of ranges (pairs, 2-lists or range strings)"""
     if isinstance(lst, _AbsSet):
-        if lst.kind != "range":
+        if lst.kind not in ("range", "pair"):
             raise Limitation("RV of an abstract set that is not a set of ranges")
         return View(lst.mem)
     def body(el, x):
@@ -876,7 +887,7 @@ def sb_VEMPTY(eng, path, a):
 def sb_WFR(eng, path, lst):
     """every element of a range list is a well-formed range of code points"""
     if isinstance(lst, _AbsSet):
-        return lst.kind == "range"       # representation invariant of abstract sets: their items are well formed
+        return lst.kind in ("range", "pair")       # representation invariant of abstract sets: their items are well formed
     n, g = _seq_of(lst)
     if z3.is_int_value(zterm(n)) and zterm(n).as_long() == 0:
         return True
@@ -928,6 +939,35 @@ def sb_PREFIXV(eng, path, lst, upto):
         k = z3.Int("k!pv")
         lo, hi = as_pair(g(k))
         return z3.Exists([k], z3.And(k >= 0, k < u, lo <= x, x <= hi))
+    return View(mem)
+
+
+def sb_CPREFIX_OUT(eng, path, lst, upto, lo, hi):
+    """every character lst[k], k < upto, lies outside lo..hi"""
+    n, g = _seq_of(lst)
+    k = z3.Int("k!cpo")
+    c = zterm(g(k).code)
+    return z3.ForAll([k], z3.Implies(z3.And(k >= 0, k < zterm(upto)), z3.Not(z3.And(zterm(lo.code) <= c, c <= zterm(hi.code)))))
+
+
+def sb_CLIST_OUT(eng, path, chars, ranges, upto):
+    """every character of the list lies outside every range ranges[k], k < upto (element-wise, no views)"""
+    n, g = _seq_of(chars)
+    nr, gr = _seq_of(ranges)
+    m, k = z3.Int("m!clo"), z3.Int("k!clo")
+    c = zterm(g(m).code)
+    lo, hi = as_pair(gr(k))
+    return z3.ForAll([m, k], z3.Implies(z3.And(m >= 0, m < zterm(n), k >= 0, k < zterm(upto)), z3.Not(z3.And(lo <= c, c <= hi))))
+
+
+def sb_CPREFIXV(eng, path, lst, upto):
+    """view of the characters lst[0 .. upto)"""
+    n, g = _seq_of(lst)
+    u = zterm(upto)
+
+    def mem(x, g=g, u=u):
+        k = z3.Int("k!cpv")
+        return z3.Exists([k], z3.And(k >= 0, k < u, zterm(g(k).code) == x))
     return View(mem)
 
 
